@@ -728,6 +728,84 @@ func runKeyvalue(c *h.Ctx, rounds int) {
 			}
 		}
 	}
+	// member names that differ only in letter case: the pairs come in one order,
+	// and the objects generated for them carry the same numbers, in every execution
+	{
+		m := map[string]any{"a": 1.0, "A": 2.0, "b": 3.0, "B": 4.0, "aB": 5.0, "Ab": 6.0, "ab": 7.0, "AB": 8.0}
+		for pi, pt := range []string{`$.keyvalue().key`, `$.keyvalue().keyvalue().id`, `$.keyvalue() ? (@.key == "a").keyvalue().id`, `$.keyvalue().value`} {
+			if !c.Mine(pi) {
+				continue
+			}
+			p := cachedPath(pt)
+			fp := func() string {
+				o := h.Call("query", p, m, h.Opts{})
+				if o.Class != h.OK {
+					return o.Summary()
+				}
+				var sb strings.Builder
+				for _, it := range o.Items {
+					switch x := it.(type) {
+					case int64:
+						fmt.Fprintf(&sb, "%d ", x/10000000000) // (the number of the generated object; the distance part is the recorded finding)
+					case float64:
+						if strings.Contains(pt, ".id") {
+							fmt.Fprintf(&sb, "%d ", int64(x)/10000000000)
+						} else {
+							fmt.Fprintf(&sb, "%v ", x)
+						}
+					default:
+						fmt.Fprintf(&sb, "%v ", x)
+					}
+				}
+				return sb.String()
+			}
+			first := fp()
+			bad := ""
+			for r := 0; r < 60 && bad == ""; r++ {
+				if got := fp(); got != first {
+					bad = fmt.Sprintf("execution %d: %s; first execution: %s", r+2, got, first)
+				}
+			}
+			c.Eval(61)
+			if bad != "" {
+				c.Violate("kv.id.stable", h.F("kind", "case-variant-keys"), fmt.Sprintf("%s on an object whose member names differ only in letter case: %s", pt, bad), h.Case{Kind: "kv", Path: pt})
+			} else {
+				c.Held("kv.id.stable")
+			}
+		}
+	}
+	// below .** a strict path forgives structural mismatches and nothing else:
+	// a numeric method applied to an item that is no number is still refused
+	{
+		k := 0
+		for _, m := range []string{"abs", "floor", "ceiling", "double", "integer", "bigint", "number", "decimal", "boolean", "string"} {
+			for _, form := range []string{"strict $.**{1}.%s()", "strict $.**.v.%s()", "strict $.**{1 to 2}.%s()", "$.**{1}.%s()"} {
+				k++
+				if !c.Mine(k) {
+					continue
+				}
+				for _, d := range []string{`[-1.5,{"v":"x"},-2.5]`, `[-1.5,{"v":{}},-2.5]`, `{"a":{"v":[]},"b":{"v":1}}`, `[[1],{"v":null}]`} {
+					ec, err := CaseFrom(h.Case{Path: fmt.Sprintf(form, m), Doc: d})
+					if err != nil {
+						continue
+					}
+					o := h.Call("query", ec.P, ec.DocValue(), ec.Opts())
+					c.Eval(1)
+					switch verdict, feat, detail := modelVerdict(ec, o); {
+					case verdict == "held":
+						c.Held("method.reject")
+					case strings.HasPrefix(verdict, "skip:"):
+						c.Skip("method.reject", strings.TrimPrefix(verdict, "skip:"))
+					case feat["cause"] != "" && feat["cause"] != "unexplained":
+						c.Skip("method.reject", "recorded-finding:"+feat["cause"])
+					default:
+						feat["method"] = m
+						c.Violate("method.reject", feat, detail, ec.Case())
+					}
+				}
+			}
+		}
+	}
 	c.Sample("keyvalue", map[string]any{"path": "$.**.keyvalue()", "doc": "slab-allocated objects o0..oN, root in the middle, each with a marker member"})
 }
 
